@@ -266,6 +266,43 @@ class RefEval:
             return self.ops.apply1("replace3", [], x, y, z)
         return self.ops.apply1(TERN_OPS[e[1]], [], x, y, z)
 
+    def ev_WideRatio(self, e, fr):
+        """floor(prod N / prod D); fails when a running product (left to right) needs more than 128
+        bits, the denominator is 0 or the quotient needs more than 64 bits"""
+        ns = [self.ev(c, fr) for c in e[1]]
+        ds = [self.ev(c, fr) for c in e[2]]
+        W = 256
+
+        def prod(vs):
+            if all(v.concrete for v in vs):
+                acc = 1
+                for v in vs:
+                    acc *= v.e
+                    if acc >= 1 << 128:
+                        self.path.fail("arith:wide product overflow")
+                return acc
+            acc = None
+            for v in vs:
+                t = z3.ZeroExt(W - 64, v.z())
+                acc = t if acc is None else acc * t
+                self.path.fail_if(z3.UGE(acc, z3.BitVecVal(1 << 128, W)), "arith:wide product overflow")
+            return acc
+        n = prod(ns)
+        d = prod(ds)
+        if isinstance(n, int) and isinstance(d, int):
+            if d == 0:
+                self.path.fail("arith:wide division by zero")
+            q = n // d
+            if q >= 1 << 64:
+                self.path.fail("arith:wide quotient overflow")
+            return U(q)
+        nz = z3.BitVecVal(n, W) if isinstance(n, int) else n
+        dz = z3.BitVecVal(d, W) if isinstance(d, int) else d
+        self.path.fail_if(dz == z3.BitVecVal(0, W), "arith:wide division by zero")
+        q = z3.UDiv(nz, dz)
+        self.path.fail_if(z3.UGE(q, z3.BitVecVal(1 << 64, W)), "arith:wide quotient overflow")
+        return U(z3.Extract(63, 0, q))
+
     def ev_Suffix(self, e, fr):
         x = self.ev(e[1], fr)
         s = self.ev(e[2], fr)
